@@ -78,14 +78,14 @@ theorem run_keeps_claimed (prog : Prog) : ∀ (t : Option Path) (sp : SpecSt),
     split <;> exact ⟨fun _ h => h, fun _ _ _ => rfl⟩
   | raise e => intro t sp; exact ⟨fun _ h => h, fun _ _ _ => rfl⟩
   | query q k ih => intro t sp; simp only [run]; exact ih _ t sp
-  | write b k ih =>
+  | write b mt k ih =>
     intro t sp
     simp only [run]
     cases t with
     | none => exact ih none sp
     | some p =>
       simp only
-      have := ih (some p) { sp with pending := (p, b, sp.clock) :: sp.pending, clock := sp.clock + 1 }
+      have := ih (some p) { sp with pending := (p, b, mt.getD sp.clock) :: sp.pending, clock := sp.clock + 1 }
       refine ⟨this.1, fun q hq hne => ?_⟩
       rw [this.2 q hq hne]
       exact pendingFind_cons_ne _ _ _ _ _ (fun e => hne (by rw [e]))
